@@ -40,7 +40,7 @@ def run(ctx):
     ctx.step(c13.uaf, ctx, "C05.uaf", [f for f in ctx.fb.functions() if f.file.endswith("/rcu_list.hpp")], floor=20,
              kinds=("erased", "deleted", "deallocated"))
     ctx.step(who, ctx)
-    ctx.step(common.rcu_writer_guard, ctx, "C05.wmutex")
+    ctx.step(common.rcu_writer_guard, ctx, "C05.wmutex", loads=False)
     ctx.step(common.atomic_floors, ctx, "C05.orders", [RCU, NODE, ZLN], floor=30, files=["rcu_list.hpp"])
     ctx.step(common.witnesses, ctx, "C05.witness", ["C05"])
 
@@ -208,10 +208,10 @@ def unlink_first(ctx, rid="C05.unlink-first", strict_values=True, all_or_nothing
                        "nothing that can throw runs between marking the node deleted and unlinking it",
                        "" if not thr else "%s may throw here: the node stays in the list but is already marked deleted, so "
                        "no later erase can remove it" % thr[0]["k"], fn=f.label, inst=f.qname)
-            if nothrow_after_unlink and (fwd or bwd or dl):
+            if nothrow_after_unlink and (fwd or bwd):
                 # once the node is marked / unlinked, the log record is the only way it is ever freed: everything that
                 # can fail (the record's allocation) has to happen before
-                i_first = min(ev.index(e) for e in fwd + bwd + dl)
+                i_first = min(ev.index(e) for e in (fwd + bwd) or dl)
                 thr = [e for e in ev[i_first:i0] if e["k"] in ("allocate", "construct")]
                 ctx.ob(rid, not thr, f.loc(thr[0]["st"]) if thr else f.loc(cas[0]["st"]),
                        "the reclamation record is allocated before the node is marked or unlinked (no failure point between "
